@@ -2,6 +2,7 @@ package props
 
 import (
 	"fmt"
+	"go/token"
 	"go/types"
 	"sort"
 	"strings"
@@ -869,4 +870,63 @@ func predefinedImportRule(p *engine.Prog, r *engine.Report, rule string, onlyMsg
 			r.Check(read[m][fld.Name()], rule, "SetPredefined*|"+m+"."+fld.Name()+" is restored", p.Pos(fns[0].Pos()), "read by an importer", "the predefined-state importers never read "+m+"."+fld.Name()+": a chain started from a dumped state lacks it (e.g. account epoch: every stored nonce then counts as stale and transactions of the current epoch can be applied again)")
 		}
 	}
+}
+
+// gasLimitTestsAgreeRule: the builder's filter (filterTxs) and the validator's replay (processTxs)
+// compare against the block gas limit with the same expressions under the same configuration
+// branches; a stricter or laxer test on one side makes honest blocks invalid (or lets the validator
+// accept what no honest builder produces).
+func gasLimitTestsAgreeRule(p *engine.Prog, r *engine.Report, rule string) {
+	b := mustFunc(p, r, "blockchain", "Blockchain.filterTxs")
+	v := mustFunc(p, r, "blockchain", "Blockchain.processTxs")
+	if b == nil || v == nil {
+		return
+	}
+	tests := func(f *ssa.Function) []string {
+		var out []string
+		for _, i := range engine.Ifs(f) {
+			hit := false
+			for x := range engine.BackSlice(i.Cond, engine.DefaultSlice) {
+				if c, ok := x.(*ssa.Call); ok && engine.CallNameIs(c, "MaxBlockSize") {
+					hit = true
+				}
+			}
+			if !hit {
+				continue
+			}
+			cond, neg := stripNot(i.Cond)
+			// shape of the test, not the data flow behind it: which side is the limit, whether the
+			// other side is the running total or the total plus the candidate's gas, and the operator
+			s := "?"
+			if bo, isB := cond.(*ssa.BinOp); isB {
+				kind := func(v ssa.Value) string {
+					for x := range engine.BackSlice(v, engine.SliceOpts{MaxNodes: 50}) {
+						if c, ok := x.(*ssa.Call); ok && engine.CallNameIs(c, "MaxBlockSize") {
+							return "limit"
+						}
+					}
+					if add, isAdd := engine.Unwrap(v).(*ssa.BinOp); isAdd && add.Op == token.ADD {
+						return "total+gas"
+					}
+					return "total"
+				}
+				s = kind(bo.X) + " " + bo.Op.String() + " " + kind(bo.Y)
+			}
+			if neg {
+				s = "!(" + s + ")"
+			}
+			// the configuration branch the test sits in
+			var cfg []string
+			for _, c := range controlSig(i.Block()) {
+				if strings.Contains(c, "Enable") || strings.Contains(c, "Consensus") {
+					cfg = append(cfg, c)
+				}
+			}
+			out = append(out, "["+strings.Join(cfg, " && ")+"] "+s)
+		}
+		sort.Strings(out)
+		return out
+	}
+	tb, tv := tests(b), tests(v)
+	r.Check(len(tb) > 0 && strings.Join(tb, " ; ") == strings.Join(tv, " ; "), rule, "filterTxs vs processTxs|same tests against the block gas limit", p.Pos(b.Pos()), itoa(int64(len(tb)))+" tests agree", "builder: {"+strings.Join(tb, " ; ")+"} validator: {"+strings.Join(tv, " ; ")+"}: the two sides draw the block gas limit differently — an honestly filled block is refused, or a block no honest builder would produce is accepted")
 }
